@@ -84,3 +84,118 @@ Proof.
   - apply good_fine_post.
     eapply cmd_server_topic_ok; [exact G|exact Hpfx|lia|apply (cf_topic _ _ _ _ C); reflexivity].
 Qed.
+
+(* ---- the entry-level invariant ------------------------------------------------------------------- *)
+Record EInv (sv : server) : Prop := {
+  e_inv : InvM sv;
+  e_live : all_live sv;
+  e_auth : auth_ok sv;
+  e_login : login_ok sv;
+}.
+
+Lemma EInv_Good sv k : EInv sv -> present sv k -> snd k = 0%N -> Good k sv.
+Proof.
+  intros [I L A Lg] [s Hs] Hk0. split; auto.
+  - exists s. split; [exact Hs|eapply L; eauto].
+  - intros k' s' Hs' Hd'. rewrite (L _ _ Hs') in Hd'. discriminate.
+Qed.
+
+Lemma assoc_str_In {A} k (l : list (string * A)) v : assoc_str k l = Some v -> In (k, v) l.
+Proof.
+  induction l as [|[k' v'] l IH]; cbn [assoc_str]; [discriminate|].
+  destruct (String.eqb k k') eqn:E.
+  - apply String.eqb_eq in E. subst k'. intros [= <-]. now left.
+  - intros H. right. now apply IH.
+Qed.
+
+(* a line of a services link is conforming in the current state *)
+Definition line_ok (sv : server) (k : N * N) (ircmsg : option imsg) : Prop :=
+  forall s m, sv_sessions sv !! k = Some s -> s_server s = true -> ircmsg = Some m ->
+    conforming sv k ("server_" ++ to_upper (m_cmd m)) m.
+
+Lemma conforming_transfer sv sv' k name m :
+  sv_nicks sv' = sv_nicks sv ->
+  (forall k2, sv_sessions sv' !! k2 = None <-> sv_sessions sv !! k2 = None) ->
+  conforming sv k name m -> conforming sv' k name m.
+Proof.
+  intros Hn Hs [C1 C2 C3 C4 C5 C6]. split; auto.
+  - intros Hname. destruct (C3 Hname) as [H1|(H4 & Hf)]; [now left|right]. split; [exact H4|].
+    intros p0 Hp0. destruct (Hf p0 Hp0) as (Hv & Hfree & Hh). repeat split; auto. now apply Hs.
+  - intros Hname p1 Hp1. rewrite Hn. now apply C4.
+Qed.
+
+Lemma process_message_ok e k ra ircmsg sv r :
+  EInv sv -> present sv k -> snd k = 0%N -> line_ok sv k ircmsg ->
+  wp (process_message e k ra ircmsg) (fine_post k) sv r.
+Proof.
+  intros E P Hk0 Hline. pose proof (EInv_Good sv k E P Hk0) as G.
+  unfold process_message. apply wp_bind. wp_sess_acting G.
+  destruct ircmsg as [m|]; [|wp_step; now apply Good_Fine]. cbv zeta.
+  (* the address-ban test *)
+  apply wp_bind.
+  eapply (wp_mono _ (fun banned sv' _ => (banned = true -> Fine k sv') /\
+            (banned = false -> Good k sv' /\ all_live sv' /\
+               sv_sessions sv' !! k = Some (if negb (is_empty ra) && negb (String.eqb ra (s_remoteAddr s)) then ss_remoteAddr ra s else s) /\
+               sv_nicks sv' = sv_nicks sv /\
+               (forall k2, k2 <> k -> sv_sessions sv' !! k2 = sv_sessions sv !! k2)))).
+  { destruct (negb (is_empty ra) && negb (String.eqb ra (s_remoteAddr s))) eqn:Hra.
+    - wp_apply wp_updSess_good; try solve_same.
+      match goal with H : _ /\ _ /\ _ |- _ => destruct H as (G1 & (Rn & _) & L1) end.
+      assert (Hlive1 : all_live sv').
+      { intros k2 s2. rewrite L1. destruct (sv_sessions sv !! k2) as [s0|] eqn:Hs0; [|discriminate].
+        cbn. intros [= <-]. pose proof (e_live sv E _ _ Hs0) as Hd0. destruct (bool_decide (k = k2)); exact Hd0. }
+      assert (Hs1 : sv_sessions sv' !! k = Some (ss_remoteAddr ra s)) by (rewrite L1, bool_decide_true, Hs by reflexivity; reflexivity).
+      assert (Hoth : forall k2, k2 <> k -> sv_sessions sv' !! k2 = sv_sessions sv !! k2).
+      { intros k2 Hne. rewrite L1, bool_decide_false by congruence. now destruct (sv_sessions sv !! k2). }
+      wp_step. wp_step. wp_step.
+      + wp_step.
+        * wp_step. split; [discriminate|]. intros _.
+          split; [exact G1|split; [exact Hlive1|split; [exact Hs1|split; [exact Rn|exact Hoth]]]].
+        * wp_step. wp_step. apply wp_bind.
+          eapply (delete_session_fine k); [apply Good_Fine; exact G1|exact Hs1|exact Hd|now left|].
+          intros sv2 r2 F2 _ _ _ _. wp_step. split; [auto|discriminate].
+      + wp_step. split; [discriminate|]. intros _.
+        split; [exact G1|split; [exact Hlive1|split; [exact Hs1|split; [exact Rn|exact Hoth]]]].
+    - wp_step. split; [discriminate|]. intros _.
+      split; [exact G|split; [apply E|split; [exact Hs|split; [reflexivity|reflexivity]]]]. }
+  intros banned sv1 r1 [Hb1 Hb0]. cbv beta. destruct banned; [wp_step; now apply Hb1|].
+  destruct (Hb0 eq_refl) as (G1 & Hlive1 & Hs1 & Hn1 & Hoth1). clear Hb1 Hb0.
+  apply wp_bind. eapply wp_sessM; [exact Hs1|].
+  set (s1 := if negb (is_empty ra) && negb (String.eqb ra (s_remoteAddr s)) then ss_remoteAddr ra s else s) in *.
+  assert (Hflags1 : s_loggedIn s1 = s_loggedIn s /\ s_server s1 = s_server s).
+  { unfold s1. destruct (_ && _); split; reflexivity. }
+  destruct Hflags1 as (Hli & Hsrv).
+  wp_step.
+  - (* not registered *)
+    wp_step. wp_step. apply wp_whenM; intros _; [|now apply Good_Fine].
+    wp_step. wp_step. eapply (delete_session_fine k); [apply Good_Fine; exact G1|exact Hs1|eapply Hlive1; eauto|now left|].
+    intros sv2 r2 F2 _ _ _ _. exact F2.
+  - (* dispatch *)
+    match goal with Hreg : _ && _ && negb (pre_registration _) = false |- _ => rename Hreg into Hreg0 end.
+    destruct (assoc_str ((if s_server s1 then "server_" else "") ++ to_upper (m_cmd m)) commands) as [[minp f]|] eqn:Hcmd;
+      [|repeat wp_step; now apply Good_Fine].
+    wp_step; [repeat wp_step; now apply Good_Fine|].
+    match goal with Hlt : Nat.ltb (nparams m) minp = false |- _ => apply Nat.ltb_ge in Hlt end.
+    apply assoc_str_In in Hcmd.
+    eapply dispatch_ok; [exact Hcmd|exact G1|assumption|]. split.
+    + (* JOIN needs a nickname: the session is logged in *)
+      intros Hname s2 Hs2. rewrite Hs1 in Hs2. injection Hs2 as <-.
+      destruct (s_server s1) eqn:Hsv; [cbn in Hname; discriminate|].
+      cbn [String.append] in Hname. rewrite Hname in Hreg0. cbn in Hreg0.
+      rewrite !andb_true_r in Hreg0. apply negb_false_iff in Hreg0.
+      pose proof (g_login _ _ G1 _ _ Hs1) as Hlb. unfold login_bit in Hlb. rewrite Hreg0 in Hlb. cbn in Hlb.
+      apply negb_true_iff, is_empty_false in Hlb. exact Hlb.
+    + (* services handlers: the link is authenticated and the line conforms *)
+      intros Hpre. destruct (s_server s1) eqn:Hsv.
+      * split; [exists s1; split; [exact Hs1|now rewrite Hsv]|]. split; [exact Hlive1|].
+        eapply (conforming_transfer sv); [exact Hn1| |eapply Hline; eauto; congruence].
+        intros k2. destruct (decide (k2 = k)) as [->|Hne].
+        -- rewrite Hs1, Hs. split; discriminate.
+        -- now rewrite Hoth1.
+      * exfalso. cbn [String.append] in Hpre, Hcmd.
+        (* no client command name starts with "server_" *)
+        unfold commands in Hcmd.
+        repeat (destruct Hcmd as [Hcmd|Hcmd]; [injection Hcmd as Hc _ _; rewrite <- Hc in Hpre; cbn in Hpre; try discriminate|]);
+          try contradiction.
+        all: admit.
+Admitted.
